@@ -127,6 +127,11 @@ class C06(E1Check):
         for n in (3, 60):
             for order in ("wp", "pw"):
                 progs.append({"kind": "burst", "n": n, "order": order, "small": False})
+        # the waiter first enters and leaves a context of its own, then asks: it still waits like any component
+        for order in ("wp", "pw"):
+            for wg, pg in ((False, False), (False, True), (True, True)):
+                for api in ("method", "shortcut", "inject"):
+                    progs.append({"kind": "after-subblock", "order": order, "wgate": wg, "pgate": pg, "api": api, "small": True})
         # a plain-alias component nested below a kind/name component publishes under the default name: it stays "default"
         for order in ("wp", "pw"):
             for wg, pg in ((False, False), (False, True), (True, False)):
@@ -207,6 +212,12 @@ class C06(E1Check):
             steps2.append(("add", "RA", "n", "wanted"))
             pub = {"alias": "p", "children": [], "prepare": None, "start": steps2}
             kids = [w, pub] if p["order"] == "wp" else [pub, w]
+        elif kind == "after-subblock":
+            w = {"alias": "w", "children": [], "prepare": None,
+                 "start": ([("gate", "w")] if p["wgate"] else []) + [("subblock",), ("get", "RA", "n", p["api"], False, "w")]}
+            pub = {"alias": "p", "children": [], "prepare": None,
+                   "start": ([("gate", "p0")] if p["pgate"] else []) + [("add", "RA", "n", "wanted")]}
+            kids = [w, pub] if p["order"] == "wp" else [pub, w]
         elif kind == "alias-nested":
             w = {"alias": "w", "children": [], "prepare": None,
                  "start": ([("gate", "w")] if p["wgate"] else []) + [("get", "RA", "default", "shortcut", False, "w")]}
@@ -256,14 +267,14 @@ class C06(E1Check):
         return {"alias": "", "children": kids, "prepare": None, "start": None}
 
     def has_match(self, p: dict) -> bool:
-        if p["kind"] in ("multi", "burst", "flaky", "generic", "audit", "giveup", "refused", "alias-nested"):
+        if p["kind"] in ("multi", "burst", "flaky", "generic", "audit", "giveup", "refused", "alias-nested", "after-subblock"):
             return True
         if p["kind"] == "alias":
             return p["where"] == "start"
         return any(MENU[i][0] for i in p["seq"])
 
     def deadlock_ok(self, program: Any) -> bool:
-        return program["kind"] in ("basic", "alias", "two", "multi", "burst", "flaky", "generic", "audit", "giveup", "refused", "alias-nested") and not self.has_match(program)
+        return program["kind"] in ("basic", "alias", "two", "multi", "burst", "flaky", "generic", "audit", "giveup", "refused", "alias-nested", "after-subblock") and not self.has_match(program)
 
     async def main(self, env: Any, program: dict) -> None:
         from asphalt.core import Context, ResourceNotFound, start_component
@@ -414,9 +425,9 @@ class C06(E1Check):
                 else:
                     fail("false-failure", f"waiter {who} failed with {ev[2]} (matching publication index {match_idx})")
         # completion: with a matching publication every waiter returns and start-up completes
-        if kind in ("basic", "alias", "two", "multi", "burst", "generic", "audit", "giveup", "refused", "alias-nested"):
+        if kind in ("basic", "alias", "two", "multi", "burst", "generic", "audit", "giveup", "refused", "alias-nested", "after-subblock"):
             waiters = {"basic": ["w"], "alias": ["w"], "two": ["w1", "w2"], "multi": ["wa", "wb"], "burst": ["w"], "generic": ["w"], "audit": ["w"],
-                       "giveup": ["w"], "refused": ["w"], "alias-nested": ["w"]}[kind]
+                       "giveup": ["w"], "refused": ["w"], "alias-nested": ["w"], "after-subblock": ["w"]}[kind]
             if self.has_match(program):
                 for w in waiters:
                     if not any(ev[0] == "get-" and ev[1] == w for ev in tr):
